@@ -33,6 +33,11 @@ def run(chk):
     chk.assume_note('the pools tree maps a pool key to an arbitrary PoolState satisfying the pool invariant of C16 '
                     '(reserves and liquidity in [1, 2^127]); one settlement from such a state covers every history')
     chk.assume_note('A-HASH, A-CODEC; CoinMapping::insert_coin / remove_coin through their contracts (C20)')
+    from props.c15_poolkey import poolkey_kernel
+    import os
+    if os.environ.get('VERIF_ONLY') == 'poolkey':  # development aid: one kernel alone (never a registered command)
+        poolkey_kernel(chk, it)
+        return
     BM.CONFIG['symbolic_ops'] = True
     it.arith_feasibility = True
     try:
@@ -49,6 +54,7 @@ def run(chk):
         it.arith_feasibility = False
     selectors(chk, it)
     pool_list_kernel(chk, it)
+    poolkey_kernel(chk, it)
 
 
 # ---------------------------------------------------------------------------------------------------------------
@@ -874,10 +880,7 @@ def pool_list_kernel(chk, it):
     from mirsym.interp import mk_option
     from mirsym.collections import val_lt
 
-    def from_bytes(itp, s_, args, ctx):
-        ok, pk = _poolkey_of_bytes(s_, MM.bytes_id(itp, s_, args[0]))
-        return mk_option(ok, pk)
-    added = [(re.compile(r'PoolKey::from_bytes$'), from_bytes)]
+    added, pnames, pcalled = parser_overrides(it)
     it.overrides = added + list(it.overrides)
     try:
         n = 3
@@ -886,9 +889,10 @@ def pool_list_kernel(chk, it):
         _poolkey_of_bytes.__defaults__[0].clear()
         st = State()
         txs = [B.sym_tx('tx' + 'abc'[i], 1, 1, 1, st.pc)[0] for i in range(n)]
-        parsed = [_poolkey_of_bytes(st, tx.fields[5].data['id']) for tx in txs]
         fn = it.by_last['extract_pool_keys_sorted'][0]
         outs = it.exec_fn(st, fn, [Ptr(st.alloc(Agg('Vec', txs)))])
+        used = pcalled[0] if pcalled else pnames[0]
+        parsed = [_poolkey_of_bytes(st, tx.fields[5].data['id'], parser=used) for tx in txs]
         inputs = {}
         for i, (ok, pk) in enumerate(parsed):
             inputs['req%d_names_a_pool' % i] = z3.If(ok, bv(1, 8), bv(0, 8))
@@ -967,9 +971,10 @@ def liq_token_override(itp, st, args, ctx):
     return liq_denom(st, deref(itp, st, args[0]))
 
 
-def _poolkey_of_bytes(st, bid, cache={}):
-    """PoolKey::from_bytes as a function of the data bytes: (parses, key) -- the same bytes always give the same key"""
-    k = bid.sexpr()
+def _poolkey_of_bytes(st, bid, cache={}, parser='PoolKey::from_bytes'):
+    """the request parser as a function of the data bytes: (parses, key) -- the same bytes always give the same key.  One
+    function per parser in use (c15_poolkey.parsers_in_use): melstf's own wrapper(s) and / or the raw PoolKey::from_bytes"""
+    k = parser + '|' + bid.sexpr()
     if k not in cache:
         holder = M.State_for_symvalue()
         pk = S.sym_value('PoolKey', 'parsed_key_%d' % len(cache), holder)
@@ -977,7 +982,34 @@ def _poolkey_of_bytes(st, bid, cache={}):
     pk, side = cache[k]
     for c in side:
         G.add(c)
-    return POOLKEY_PARSES(bid), pk
+    fn = z3.Function('poolkey_parses' + ('' if parser == 'PoolKey::from_bytes' else '_' + re.sub(r'\W', '_', parser)), z3.BitVecSort(256), z3.BoolSort())
+    return fn(bid), pk
+
+
+def parser_overrides(it):
+    """(overrides, name of the parser the settlement code uses first): every request parser in use becomes an uninterpreted
+    function of the data bytes in the selector / pool-list kernels; what the parsers really return is decided by
+    c15_poolkey.poolkey_kernel on their MIR"""
+    from mirsym import melmodels as MM
+    from mirsym.interp import mk_option
+    from props import c15_poolkey as PKK
+    fb = PKK._find(it, 'from_bytes', 'melswap.rs')
+    parsers, _ = PKK.parsers_in_use(it, fb)
+    names = [n_ for n_, _ in parsers]
+    called = []
+
+    def mk(pname):
+        def parse(itp, s_, args, ctx):
+            called.append(pname)
+            ok, pk = _poolkey_of_bytes(s_, MM.bytes_id(itp, s_, args[0]), parser=pname)
+            return mk_option(ok, pk)
+        return parse
+    ovs = []
+    for pname in names:
+        last = pname.split('::')[-1]
+        rx = r'PoolKey::from_bytes$' if pname == 'PoolKey::from_bytes' else r'(^|::)%s$' % re.escape(last)
+        ovs.append((re.compile(rx), mk(pname)))
+    return ovs, names, called
 
 
 def selectors(chk, it, only=None):
@@ -987,10 +1019,8 @@ def selectors(chk, it, only=None):
     from mirsym.summaries import deref
     from mirsym.interp import mk_option
 
-    def from_bytes(itp, s_, args, ctx):
-        ok, pk = _poolkey_of_bytes(s_, MM.bytes_id(itp, s_, args[0]))
-        return mk_option(ok, pk)
-    added = [(re.compile(r'PoolKey::from_bytes$'), from_bytes), (re.compile(r'PoolKey::liq_token_denom$'), liq_token_override)]
+    added, pnames, pcalled = parser_overrides(it)
+    added = added + [(re.compile(r'PoolKey::liq_token_denom$'), liq_token_override)]
     it.overrides = added + list(it.overrides)
     try:
         for which, kind_name in (('swap', 'Swap'), ('deposit', 'LiqDeposit'), ('withdrawal', 'LiqWithdraw')):
@@ -1009,8 +1039,9 @@ def selectors(chk, it, only=None):
                     raise Inconclusive('selector closure of get_%s_transactions not found' % which)
                 fn = fns[0]
                 env = Ptr(st.alloc(Agg(fn.param_types[0].replace('&mut ', '').lstrip('&'), [Ptr(st.alloc(state))])))
+                del pcalled[:]
                 outs = it.exec_fn(st, fn, [env, tx])
-                ok_parse, pk = _poolkey_of_bytes(st, tx.fields[5].data['id'])
+                ok_parse, pk = _poolkey_of_bytes(st, tx.fields[5].data['id'], parser=(pcalled[0] if pcalled else pnames[0]))
                 pools0 = state.fields[9].fields[0].data
                 coins0 = state.fields[3].fields[0].data
                 txh = B.tx_hash_term(it, st, tx)
